@@ -353,8 +353,13 @@ pub fn check_in_document(text: &str, untagged: &CN, stats: &mut Stats) {
     if !crate::scalars::plain_ok(text, ctx) {
         return;
     }
-    let doc = format!("- {text}\n- !!str {text}\n- '{}'\n", text.replace('\'', "''"));
-    let want = CN::Seq(vec![untagged.clone(), CN::Str(text.to_string()), CN::Str(text.to_string())]);
+    let doc = format!(
+        "- {text}\n- !!str {text}\n- '{}'\n- \"{}\"\n- |-\n  {text}\n- >-\n  {text}\n",
+        text.replace('\'', "''"),
+        text.replace('\\', "\\\\").replace('"', "\\\"")
+    );
+    let st = || CN::Str(text.to_string());
+    let want = CN::Seq(vec![untagged.clone(), st(), st(), st(), st(), st()]);
     let key = shape(text);
     macro_rules! ld {
         ($ty:ty, $cn:expr, $name:literal) => {{
@@ -375,6 +380,37 @@ pub fn check_in_document(text: &str, untagged: &CN, stats: &mut Stats) {
     ld!(YamlOwned, cn_owned, "YamlOwned");
     ld!(MarkedYaml, cn_marked, "MarkedYaml");
     ld!(MarkedYamlOwned, cn_marked_owned, "MarkedYamlOwned");
+    // the same document loaded with resolution deferred, then resolved
+    macro_rules! deferred {
+        ($ty:ty, $cn:expr, $name:literal, $resolve:expr) => {{
+            let r = catch(|| {
+                let mut loader: saphyr::YamlLoader<$ty> = saphyr::YamlLoader::default();
+                loader.early_parse(false);
+                let mut p = saphyr_parser::Parser::new_from_str(&doc);
+                p.load(&mut loader, true).ok()?;
+                let mut docs = loader.into_documents();
+                for d in &mut docs {
+                    $resolve(d);
+                }
+                Some(docs.iter().map($cn).collect::<Vec<_>>())
+            });
+            if let Ok(Some(d)) = r {
+                stats.cnt("deferred_document_loads", 1);
+                if d.len() != 1 || d[0] != want {
+                    viol(
+                        stats,
+                        format!("C08/in-document-deferred/{}/{key}", $name),
+                        format!("{}: document {doc:?} loaded with early_parse(false) and then resolved is {}, expected {}", $name, d.first().map_or("<none>".to_string(), CN::show), want.show()),
+                        J::obj(vec![("text", J::s(text)), ("document", J::s(&doc))]),
+                    );
+                }
+            }
+        }};
+    }
+    deferred!(Yaml, cn_yaml, "Yaml", |d: &mut Yaml| d.parse_representation_recursive());
+    deferred!(YamlOwned, cn_owned, "YamlOwned", |d: &mut YamlOwned| d.parse_representation_recursive());
+    deferred!(MarkedYaml, cn_marked, "MarkedYaml", |d: &mut MarkedYaml| d.data.parse_representation_recursive());
+    deferred!(MarkedYamlOwned, cn_marked_owned, "MarkedYamlOwned", |d: &mut MarkedYamlOwned| d.data.parse_representation_recursive());
 }
 
 fn near_literal(text: &str) -> bool {
